@@ -1157,11 +1157,11 @@ package flags
 //@   loop 1 invariant lineno == (ncalls(readFullLine) - nfails(readFullLine)) - l0
 //@   loop 1 invariant exists(k, 0, len(ret.order), ret.order[k] == sectionname)
 //@   loop 1 invariant forall(n, string, indom(ret.Sections, n) == exists(k, 0, len(ret.order), ret.order[k] == n))
-//@   loop 1 invariant[C13] forall(n, string, indom(ret.Sections, n) ==> !isnil(ret.Sections[n]))
-//@   loop 1 invariant[C13] forall(j, 0, len(ret.order), forall(k, 0, j, ret.order[k] != ret.order[j]))
+//@   loop 1 invariant[C13,C14] forall(n, string, indom(ret.Sections, n) ==> !isnil(ret.Sections[n]))
+//@   loop 1 invariant[C13,C14] forall(j, 0, len(ret.order), forall(k, 0, j, ret.order[k] != ret.order[j]))
 //@   loop 1 invariant ncalls(bufio.Reader.ReadLine) <= readBound(reader)
 //@   loop 1 decreases readBound(reader) - ncalls(bufio.Reader.ReadLine)
-//@   ensures[C13] err == nil ==> forall(j, 0, len(r.order), forall(k, 0, j, r.order[k] != r.order[j]))
+//@   ensures[C13,C14] err == nil ==> forall(j, 0, len(r.order), forall(k, 0, j, r.order[k] != r.order[j]))
 //@   at[C14] call append #2: name == strings.TrimSpace(line[1 : len(line)-1]) && len(name) != 0
 //@   at[C14] call append #3: len(name) != 0
 //@   at[C14] call append #3: len(line) > 0 && line[0] != '[' && line[0] != ';' && line[0] != '#' && contains(line, "=")
@@ -1931,7 +1931,16 @@ package flags
 
 //@ assumed func optionIniName(option *Option) (r string)
 //@   pure
-//@ assumed func (option *Option) valueIsDefault() (r bool)
+// The is-default test that decides what the INI writer omits or comments out: the value is compared itself
+// (reflect.DeepEqual), not by a rendering - different slices or maps can render alike.
+//@ assumed func reflect.DeepEqual(x interface{}, y interface{}) (r bool)
+//@   pure
+//@ func (option *Option) valueIsDefault() (r bool)
+//@   props C12 C04
+//@   requires option != nil
+//@   loop 1 invariant true
+//@   at[C12] call reflect.DeepEqual #1: arg(0) == option.value.Interface() && arg(1) == checkval.Interface() && tick(cmp)
+//@   ensures[C12] ticks(cmp) == 1
 //@   pure
 
 // One section per group: hidden options, func options and options marked
